@@ -2055,7 +2055,11 @@ Queue<ItemType>::SwapContentsAux(Queue<ItemType> & largeThat)  // note:  can't b
    // First, copy over our (small) contents to his small-buffer
    const uint32 ni = GetNumItems();
    MASSERT((ni <= ARRAYITEMS(largeThat._smallQueue)), "Queue::SwapContentsAux():  ni is too large");  // only here to reassure Coverity and myself
-   for (uint32 i=0; i<ni; i++) largeThat._smallQueue[i] = QQ_PlunderItem((*this)[i]);
+   for (uint32 i=0; i<ni; i++)
+   {
+      largeThat._smallQueue[i] = QQ_PlunderItem((*this)[i]);
+      if (IsPerItemClearNecessary()) (*this)[i] = GetDefaultItem();  // don't leave stale items behind in our small-buffer (they could resurface via EnsureSize(n, true))
+   }
 
    // Now adopt his dynamic buffer
    _queue     = largeThat._queue;
